@@ -47,6 +47,20 @@ CHECKS = {
         "the harness. Gamma rate classes: normalisation only. Discrete-time BH/DT not covered.",
         technique="TLA+ exact-rational model definitions (TLC invariants) + cell-by-cell conformance of real Q and P",
     ),
+    "C02": dict(
+        category="model_checking",
+        text="Felsenstein.tla defines the site likelihood both by pruning and by the explicit sum over all assignments of states to all "
+        "nodes, over exact rationals (TN93 family: closed-form P(t) from TN93.tla); TLC proves pruning = sum-product for every column, "
+        "that the likelihoods of all canonical columns sum to one, and that rate classes are the bprob-weighted mixture. Each "
+        "configuration (2-4 tips; star, rooted, root trifurcation; per-edge lengths and kappa scopes; ambiguity-coded columns over "
+        "T,C,A,G,R,Y,N; equal and unequal rate classes) is instantiated as a real likelihood function and every per-column likelihood "
+        "and lnL is compared with the exact value (rtol 1e-10).",
+        design_ref="DESIGN.md section 2 / C02",
+        note="Trusted: TLC, Fraction->float, ln for branch lengths and lnL. Exact oracle only for the Tamura-Nei family on <= 4 tips. "
+        "For GTR/GN/codon/protein/dinucleotide models the independent number is not available: their Q is decided by C05, the pruning "
+        "structure relationally by C11, and the sum-over-all-columns = 1 obligation is evaluated on the real code in float.",
+        technique="TLA+ exact-rational sum-product (TLC: pruning = brute force) + per-column conformance of real likelihood functions",
+    ),
 }
 
 PENDING = {}
